@@ -251,3 +251,91 @@ Proof.
 Qed.
 
 End Wide.
+
+(** * the binary-number path agrees with the plain one wherever that one returns: every
+    theorem about a completed [op_copy_within] (C14_copy_within, same-as-owned, frame)
+    holds of [op_copy_within_w], which thereby models copy_within for ALL arguments *)
+Lemma copy_row_w_agree b s d sx0 sx1 (dx cols : N) :
+  copy_row_to_row_w b s d sx0 sx1 dx (dx + cols) = copy_row_to_row b s d sx0 sx1 (N.to_nat dx) (N.to_nat cols).
+Proof.
+  unfold copy_row_to_row_w, copy_row_to_row, index_range_N, index_range.
+  destruct (N.leb_spec dx (dx + cols)); [|lia]. cbn [andb].
+  replace (N.to_nat (dx + cols)) with (N.to_nat dx + N.to_nat cols) by lia.
+  destruct (Nat.leb_spec (N.to_nat dx) (N.to_nat dx + N.to_nat cols)); [|lia]. cbn [andb].
+  destruct (N.leb_spec (dx + cols) (N.of_nat (len d))); destruct (Nat.leb_spec (N.to_nat dx + N.to_nat cols) (len d));
+    try lia; reflexivity.
+Qed.
+
+Lemma rows_w_agree oc v down (off_ dx cols : N) sx0 sx1 : forall rs b b',
+  Forall (fun r => (down = true -> (N.of_nat r + off_ < W)%N) /\ (down = false -> (off_ <= N.of_nat r)%N)) rs ->
+  copy_within_rows v rs down (N.to_nat off_) sx0 sx1 (N.to_nat dx) (N.to_nat cols) b = Ok b' ->
+  copy_within_rows_w oc v rs down off_ sx0 sx1 dx (dx + cols)%N b = Ok (false, b').
+Proof.
+  unfold copy_within_rows_w.
+  induction rs as [|r tl IH]; intros b b' Hall H; cbn [copy_within_rows steps_w] in *; [inversion H; reflexivity|].
+  inversion Hall as [|? ? [Hw Hup] Hall']; subst.
+  assert (Estep : cw_step_w oc v down off_ sx0 sx1 dx (dx + cols)%N r b =
+                  (p <- op_row_pair v (N.of_nat r) (N.of_nat (if down then r + N.to_nat off_ else r - N.to_nat off_)) ;;
+                   copy_row_to_row b (fst p) (snd p) sx0 sx1 (N.to_nat dx) (N.to_nat cols))).
+  { unfold cw_step_w. destruct down.
+    - specialize (Hw eq_refl). unfold uadd. destruct (N.ltb_spec (N.of_nat r + off_) W); [|lia]. cbn [bind].
+      replace (N.of_nat (r + N.to_nat off_)) with (N.of_nat r + off_)%N by lia.
+      destruct (op_row_pair v (N.of_nat r) (N.of_nat r + off_)) as [p| |]; cbn [bind]; try reflexivity.
+      apply copy_row_w_agree.
+    - cbn [bind]. specialize (Hup eq_refl).
+      replace (N.of_nat (r - N.to_nat off_)) with (N.of_nat r - off_)%N by lia.
+      destruct (op_row_pair v (N.of_nat r) (N.of_nat r - off_)) as [p| |]; cbn [bind]; try reflexivity.
+      apply copy_row_w_agree. }
+  rewrite Estep.
+  destruct (op_row_pair v (N.of_nat r) (N.of_nat (if down then r + N.to_nat off_ else r - N.to_nat off_))) as [p| |];
+    cbn [bind] in *; try discriminate.
+  destruct (copy_row_to_row b (fst p) (snd p) sx0 sx1 (N.to_nat dx) (N.to_nat cols)) as [b1| |]; cbn [bind] in *; try discriminate.
+  apply IH; assumption.
+Qed.
+
+Lemma same_w_agree v sx0 sx1 (dx : N) : forall rs b b',
+  copy_within_same v rs sx0 sx1 (N.to_nat dx) b = Ok b' ->
+  copy_within_same_w v rs sx0 sx1 dx b = Ok (false, b').
+Proof.
+  unfold copy_within_same_w.
+  induction rs as [|r tl IH]; intros b b' H; cbn [copy_within_same steps_w] in *; [inversion H; reflexivity|].
+  unfold cw_same_step_w at 1.
+  destruct (v_index_row v (N.of_nat r)) as [w| |]; cbn [bind] in *; try discriminate.
+  unfold assert in *.
+  destruct (Nat.leb_spec sx0 sx1); cbn [andb bind] in *; [|discriminate].
+  destruct (Nat.leb_spec sx1 (len w)); cbn [andb bind] in *; [|discriminate].
+  destruct (Nat.leb_spec (N.to_nat dx + (sx1 - sx0)) (len w)); cbn [bind] in *; [|discriminate].
+  destruct (N.leb_spec dx (N.of_nat (len w - (sx1 - sx0)))); [|lia]. cbn [bind].
+  destruct (read_win b (mkSl (off w + sx0) (sx1 - sx0))) as [xs| |]; cbn [bind] in *; try discriminate.
+  destruct (write_win b (mkSl (off w + N.to_nat dx) (sx1 - sx0)) xs) as [b1| |]; cbn [bind] in *; try discriminate.
+  apply IH. exact H.
+Qed.
+
+Theorem op_copy_within_w_agrees oc v b b' (x0 y0 x1 y1 dx dy : N) :
+  (N.of_nat (vrows v) < W)%N -> (dx + (x1 - x0) < W)%N -> (dy + (y1 - y0) < W)%N ->
+  op_copy_within oc v b x0 y0 x1 y1 dx dy = Ok b' ->
+  op_copy_within_w oc v b x0 y0 x1 y1 dx dy = Ok (false, b').
+Proof.
+  intros Hrw Hc Hr. unfold op_copy_within, op_copy_within_w, assert.
+  destruct (N.leb_spec x0 x1); cbn [bind]; [|discriminate].
+  destruct (N.leb_spec y0 y1); cbn [bind]; [|discriminate].
+  destruct (N.leb_spec x1 (N.of_nat (vcols v))); cbn [bind]; [|discriminate].
+  destruct (N.leb_spec y1 (N.of_nat (vrows v))); cbn [bind]; [|discriminate].
+  unfold uadd. destruct (N.ltb_spec (dx + (x1 - x0)) W); [|lia]. cbn [bind].
+  destruct (N.leb_spec (dx + (x1 - x0)) (N.of_nat (vcols v))); cbn [bind]; [|discriminate].
+  destruct (N.ltb_spec (dy + (y1 - y0)) W); [|lia]. cbn [bind].
+  destruct (N.leb_spec (dy + (y1 - y0)) (N.of_nat (vrows v))); cbn [bind]; [|discriminate].
+  destruct (N.ltb_spec y0 dy); [|destruct (N.ltb_spec dy y0)].
+  - destruct (seq (N.to_nat y0) (N.to_nat (y1 - y0))) as [|r0 rs0] eqn:Eseq.
+    + intros E. inversion E. reflexivity.
+    + rewrite <- Eseq. intros E.
+      replace (N.to_nat dy - N.to_nat y0) with (N.to_nat (dy - y0)) in E by lia.
+      rewrite (rows_w_agree oc v true (dy - y0) dx (x1 - x0) (N.to_nat x0) (N.to_nat x1) _ b b'); [reflexivity| |exact E].
+      apply Forall_rev. apply Forall_seq_lt. intros r Hrr. split; [intros _; lia|discriminate].
+  - intros E. replace (N.to_nat y0 - N.to_nat dy) with (N.to_nat (y0 - dy)) in E by lia.
+    rewrite (rows_w_agree oc v false (y0 - dy) dx (x1 - x0) (N.to_nat x0) (N.to_nat x1) _ b b'); [reflexivity| |exact E].
+    apply Forall_seq_lt. intros r Hrr. split; [discriminate|intros _; lia].
+  - destruct (seq (N.to_nat y0) (N.to_nat (y1 - y0))) as [|r0 rs0] eqn:Eseq.
+    + intros E. inversion E. reflexivity.
+    + rewrite <- Eseq. intros E. rewrite (same_w_agree v _ _ dx _ b b' E). reflexivity.
+Qed.
